@@ -70,7 +70,7 @@ class DirectedWeightedGraph : private LabeledDirectedGraph<EdgeWeight> {
             maxIndex = std::max(std::get<0>(multiedge), std::get<1>(multiedge));
             if (maxIndex >= getSize())
                 resize(maxIndex + 1);
-            addMultiedge(
+            addEdge(
                 std::get<0>(multiedge), std::get<1>(multiedge),
                 std::get<2>(multiedge)
             );
